@@ -6,6 +6,7 @@
 //! must be `pass`). Lines starting with `#` are statistics (JSON).
 mod common;
 mod blocks;
+mod bytes;
 mod conc;
 mod drip;
 mod fsink;
@@ -24,6 +25,7 @@ fn main() {
         Some("ring") => ring::run(&args),
         Some("blocks") => blocks::run(&args),
         Some("sched") => sched::run(&args),
+        Some("bytes") => bytes::run(&args),
         Some("vm") => vm::run(&args),
         Some("vmtrace") => {
             vm::trace(&args);
